@@ -205,9 +205,29 @@ func c09ConcreteStr(v Val) Val {
 	if !ok {
 		return v
 	}
+	// the bytes a float token can consist of after the reader lower-cased it
+	const cand = "0123456789.e+-dfls"
 	b := make([]byte, len(x.b))
 	for i, e := range x.b {
-		b[i] = byte(concretize(e, 8, 0, 255))
+		t, isT := e.(*Term)
+		if !isT {
+			b[i] = byte(concretize(e, 8, 0, 255))
+			continue
+		}
+		alts := make([]*Term, 0, len(cand)+1)
+		var none *Term = tTrue
+		for j := 0; j < len(cand); j++ {
+			eq := mkEq(t, mkBV(uint64(cand[j]), 8))
+			alts = append(alts, eq)
+			none = mkAnd(none, mkNot(eq))
+		}
+		alts = append(alts, none)
+		k := in.ex.choose(in.path, alts)
+		if k == len(cand) {
+			b[i] = byte(concretize(e, 8, 0, 255))
+		} else {
+			b[i] = cand[k]
+		}
 	}
 	return string(b)
 }
